@@ -88,7 +88,7 @@ def _run(args):
 
 def cases(ctx):
     emb = ctx.embedding
-    sigma, n = (progs.SIGMA6, 4) if ctx.quick else (progs.SIGMA7, 5)
+    sigma, n = (progs.SIGMA6, 4) if ctx.quick else (progs.SIGMA8, 5)
     for kind, fees, levs in (('futures', (0.001, 0.0), (3, 1)), ('spot', (0.0,), (1,))):
         P = programs(emb[1], emb[2], kind)
         combos = [(fees[0], levs[0], False), (fees[-1], levs[-1], True)] if ctx.quick else [(fees[0], levs[0], False), (fees[-1], levs[-1], True), (fees[0], levs[-1], True), (fees[-1], levs[0], False)][:4 if kind == 'futures' else 2]
@@ -96,6 +96,12 @@ def cases(ctx):
             for pname, prog in P:
                 for w in progs.words(sigma, n):
                     yield (w, pname, prog, kind, fee, lev, fast, emb)
+                if ctx.quick and kind == 'futures' and not fast:
+                    # quick tier: words with a doji (open == close, wicks on both sides) in the candle-by-candle futures sessions only
+                    for w in progs.words(sigma + ['DOJI'], n):
+                        if 'DOJI' in w:
+                            yield (w, pname, prog, kind, fee, lev, fast, emb)
+    sigma = progs.SIGMA6 if ctx.quick else progs.SIGMA7
     # isolated margin with high leverage: liquidations, and stops that fill beyond the bankruptcy price
     P = [p for p in programs(emb[1], emb[2], 'futures') if p[0] != 'flip-at-2']
     for lev, fast in ((100, False), (50, True)):
@@ -139,7 +145,7 @@ def run(ctx):
     cov['traces_validated_against_impl'] = len(allc)
     cov['evaluations'] = len(allc)
     cov['rule'] = 'all candle words x programs x account settings; a session is non-trivial when it completed at least one open..close cycle with more than two position events'
-    sigma, n = (progs.SIGMA6, 4) if ctx.quick else (progs.SIGMA7, 5)
+    sigma, n = (progs.SIGMA6 + ['DOJI'], 4) if ctx.quick else (progs.SIGMA8, 5)
     cov['bounds'] = {'alphabet': sigma, 'word_length': n, 'programs': [p for p, _ in programs(1, 1, 'futures')]}
     ctx.sample({'word': list(allc[0][0]), 'program': allc[0][1], 'kind': allc[0][3]})
     ctx.sample({'word': list(allc[-1][0]), 'program': allc[-1][1], 'kind': allc[-1][3]})
